@@ -64,7 +64,7 @@ mod proofs {
     }
     fn create_rng_stub(_this: &crate::context::HeContext) -> crate::util::BlakeRNG { sym_blake() }
 
-    // @harness id=C01 tier=quick unwind=10 timeout=3000 fs=4096 mem=24
+    // @harness id=C01 tier=quick unwind=10 timeout=3000 fs=4096 mem=24 replays=12
     // @desc public-key encryption of zero BELOW the key level takes each public-key polynomial at the KEY level's stride: with a public key whose second polynomial is zero, the second component of the fresh ciphertext is exactly the sampled error -- every coefficient small (|e| <= 21) -- whatever the first public-key polynomial holds in its other RNS components, for every output of the randomness source; size, level and metadata as requested
     // @bounds BFV N=2, chain {97,113,193}: key level 3 primes, encryption at the LAST level {97}; public key (pk0 arbitrary canonical residues in all three components, pk1 = 0); coefficient-form output; randomness: first 24 bytes of both generators arbitrary (covers all draws of one encryption when at most 4 words are rejected)
     // @funcs encrypt_zero::asymmetric_with_u_prng, sample::ternary, sample::centered_binomial, polysmallmod::{ntt_p,intt_p,dyadic_product_p,add_inplace_p}, Ciphertext::resize, PublicKey::as_ciphertext
@@ -88,6 +88,38 @@ mod proofs {
         let k: usize = kani::any(); kani::assume(k < 2);
         let e = dest.data()[2 + k];
         kani::cover!(r[2] != 0 && e != 0);
+        assert!(e <= 21 || (e >= 97 - 21 && e < 97));
+        std::mem::forget(pk); std::mem::forget(ctx);
+    }
+
+    fn create_rng_zero_stub(_this: &crate::context::HeContext) -> crate::util::BlakeRNG {
+        crate::util::verif_v::random_generator::mk_blake_rng([0u8; crate::util::verif_v::random_generator::BUF], crate::util::PRNGSeed([0u8; 64]), 1, 0)
+    }
+
+    // @harness id=C01 tier=quick unwind=10 timeout=3000 fs=4096 mem=24 replays=12
+    // @desc as c01_pk_encrypt_zero_lower_level_stride with the error generator's bytes fixed to zero in the model (sampled error 0): the second component must then stay within the error bound for every mask u -- a counterexample of this harness has a large key*u product and therefore reproduces natively whatever error the real entropy source adds (the replay is repeated up to 12 times)
+    // @bounds BFV N=2, chain {97,113,193}: key level 3 primes, encryption at the LAST level {97}; public key (pk0 arbitrary canonical residues in all three components, pk1 = 0); coefficient-form output; randomness: first 24 bytes of the mask generator arbitrary, error generator all zero (covers all draws of one encryption when at most 4 words are rejected)
+    // @funcs encrypt_zero::asymmetric_with_u_prng, sample::ternary, sample::centered_binomial, polysmallmod::{ntt_p,intt_p,dyadic_product_p,add_inplace_p}, Ciphertext::resize, PublicKey::as_ciphertext
+    // @stubs HeContext::create_random_generator -> generator whose buffered bytes are all zero (sampled error 0); HeContext::get_context_data -> linear search over the literal chain; alloc::sync::Arc::drop_slow -> no-op
+    #[kani::proof]
+    #[kani::stub(crate::context::HeContext::get_context_data, crate::context::verif_v::get_context_data_stub)]
+    #[kani::stub(alloc::sync::Arc::drop_slow, crate::verif_v::arc_drop_slow_noop)]
+    #[kani::stub(crate::context::HeContext::create_random_generator, create_rng_zero_stub)]
+    fn c01_pk_encrypt_zero_lower_level_stride_zero_noise_source() {
+        use crate::key::verif_v::mk_public_key; use crate::text::verif_v::mk_ciphertext;
+        let ctx = lits::ctx_bfv_n2();
+        let key_pid = *ctx.key_parms_id(); let last = *ctx.last_parms_id();
+        let r: [u8; 6] = kani::any();
+        kani::assume(r[0] < 97 && r[1] < 97 && r[2] < 113 && r[3] < 113 && r[4] < 193 && r[5] < 193);
+        let mut d = vec![0u64; 12]; let mut i = 0; while i < 6 { d[i] = r[i] as u64; i += 1; }
+        let pk = mk_public_key(mk_ciphertext(2, 3, 2, d, key_pid, 1.0, true, 1));
+        let mut u_prng = sym_blake();
+        let mut dest = crate::Ciphertext::new();
+        encrypt_zero::asymmetric_with_u_prng(&pk, &ctx, &last, false, &mut u_prng, &mut dest);
+        assert!(dest.size() == 2 && dest.data().len() == 4 && *dest.parms_id() == last && !dest.is_ntt_form() && dest.scale() == 1.0 && dest.correction_factor() == 1);
+        let k: usize = kani::any(); kani::assume(k < 2);
+        let e = dest.data()[2 + k];
+        kani::cover!(r[2] != 0);
         assert!(e <= 21 || (e >= 97 - 21 && e < 97));
         std::mem::forget(pk); std::mem::forget(ctx);
     }
